@@ -702,7 +702,70 @@ def check_remove_edge(R, prog, cname, spec, fi, events):
             R.bad(F("CO-UPDATE", fi, "Graph.remove_edge writes %s" % e.field, "remove_edge must not change the vertex count", e.stmt))
 
 
+def semantic_update_vertex_number(spec, fi):
+    """fold update_vertex_number on stand-in objects with 0..3 vertices: afterwards the count is max(old, new), there is exactly one row
+    per vertex (plus the unused row 0), the old rows are the same objects with the same content, every new row is an empty list of its
+    own, nothing else changed; a negative or non-integer argument is refused and changes nothing"""
+    import types
+    from ..fold import Folder, Raised
+    order, rows = spec["order"][0], spec["rows"][0]
+
+    def nni(v, name="x"):
+        if not isinstance(v, int) or isinstance(v, bool):
+            raise TypeError(name)
+        if v < 0:
+            raise ValueError(name)
+    n_inst = 0
+    for old in range(0, 4):
+        for new in (-2, -1, 0, 1, 2, 3, 4, 6, "3", None):
+            base = [[] for _ in range(old + 1)]
+            for u in range(1, old + 1):
+                base[u].extend(v for v in range(1, old + 1) if v != u)
+            obj = types.SimpleNamespace(**{order: old, rows: list(base), "m": 7, "edgeset": {(1, 2)}, "name": "g"})
+            f = Folder(env={})
+            f.globals = {"non_negative_int": nni}
+            what = "update_vertex_number(%r) on a graph with %d vertices" % (new, old)
+            try:
+                f.call_function(fi.node, [obj, new], {})
+                outcome = "ok"
+            except Raised as r:
+                outcome = r.cls.split("(")[0]
+            except Unknown as e:
+                return None, "cannot fold update_vertex_number: %s" % e
+            got_n, got_rows = getattr(obj, order), getattr(obj, rows)
+            invalid = not isinstance(new, int) or new < 0
+            if invalid:
+                if outcome not in ("ValueError", "TypeError"):
+                    return False, "%s is accepted (%s); a negative or non-integer count must be refused" % (what, outcome)
+                if got_n != old or len(got_rows) != old + 1:
+                    return False, "%s is refused but leaves %d vertices and %d rows" % (what, got_n, len(got_rows))
+                n_inst += 1
+                continue
+            if outcome != "ok":
+                return False, "%s raises %s" % (what, outcome)
+            want = max(old, new)
+            if got_n != want:
+                return False, "%s leaves the count at %r; it must be max(old, new) = %d" % (what, got_n, want)
+            if not isinstance(got_rows, list) or len(got_rows) != want + 1:
+                return False, "%s leaves %s rows for %d vertices (one per vertex plus row 0 expected)" % (what, len(got_rows) if isinstance(got_rows, list) else got_rows, want)
+            if any(got_rows[i] is not base[i] for i in range(old + 1)) or any(base[u] != [v for v in range(1, old + 1) if v != u] for u in range(1, old + 1)):
+                return False, "%s replaces or changes the rows of the old vertices" % what
+            fresh = got_rows[old + 1:]
+            if any(r != [] for r in fresh) or len({id(r) for r in fresh}) != len(fresh):
+                return False, "%s: the rows of the new vertices are %s; each must be an empty list of its own" % (what, fresh)
+            if obj.m != 7 or obj.edgeset != {(1, 2)} or obj.name != "g":
+                return False, "%s touches the edges or the name" % what
+            n_inst += 1
+    return True, "%d (old count, argument) instances folded" % n_inst
+
+
 def check_update_vertex_number(R, prog, cname, spec, fi, events):
+    from ._shared import with_semantics
+    with_semantics(R, R.prop, lambda T: _shape_update_vertex_number(T, prog, cname, spec, fi, events), semantic_update_vertex_number(spec, fi),
+                   "Graph.update_vertex_number raises the count to max(old, new) with one fresh row per new vertex", fi, rule="CO-UPDATE")
+
+
+def _shape_update_vertex_number(R, prog, cname, spec, fi, events):
     cfg = CFG(fi.node)
     p = fi.params[1]
     order = spec["order"][0]
